@@ -59,6 +59,14 @@ func c19(ctx *Ctx) (*Outcome, error) {
 	for i := 0; i < 6; i++ {
 		cases = append(cases, ecmaPatternCase(i))
 	}
+	for i := 0; i < 12; i++ {
+		// min/maxProperties on objects at every kind of position; null at every position is added by the engine
+		c := propertyCountCase(i)
+		if i%2 == 1 {
+			c.Args = nil
+		}
+		cases = append(cases, c)
+	}
 	for i := 0; i < 5; i++ {
 		// format-typed strings fed texts next to the canonical forms (empty, truncated, with zone suffix ...)
 		c := lenientFormatCase(i)
